@@ -6,6 +6,7 @@ import Model.Store.Project
 import Model.Store.Search
 import Lemmas.StoreSqlSmallScope
 import Lemmas.StoreSqlFrame
+import Lemmas.LogTimeAccept
 /-! C04 — what the read API reports is the replay of the log   (**PARTIAL**: see `checks/c04.py` META).
 
 Stage 1 (this part of the file): the laws of `Store.replay`, the independent fold the property speaks about.  They hold
@@ -394,17 +395,33 @@ theorem projection_self_posting_new_account :
     discrepancies wSelf = [] := by
   decide
 
-/-- DESIGN §6 #25: a transaction at instant 1000 written with offset +02:00 (7 200 000 000 µs) -/
+/-- DESIGN §6 #25: a transaction at instant 1000 whose STORED timestamp text carries the offset +02:00 (7 200 000 000 µs) -/
 def wZoned : List (CLog × Int) := [ (⟨"l", 0, 2000, "", .newTx ⟨0, [⟨"world", "alice", "USD", 1⟩], [], 1000, ""⟩ []⟩, 7200000000) ]
 
 set_option maxRecDepth 100000 in
-/-- the projection files the transaction under its wall-clock time, two hours after its instant: `timestamp`, and the
-`effective_date` of its moves -/
+/-- what the SQL does with an offset in the stored text (**latent** since `ParseTime` converts to UTC — fixes/c04-parsetime-utc.diff;
+`stored_timestamps_are_utc` below): `::timestamp without time zone` ignores it, the projection files the transaction under its
+wall-clock time, two hours after its instant: `timestamp`, and the `effective_date` of its moves.  The check observes on every run
+that the text the real code marshals carries no offset, and feeds whatever it observes to this model. -/
 theorem projection_timestamp_offset_dropped :
     ((txRows (projectO wZoned) "l").map (fun r => r.timestamp == Val.ts 7200001000)) = [true] ∧
     ((moveRows (projectO wZoned) "l").map (fun r => r.effective_date == Val.ts 7200001000)) = [true, true] ∧
     (discrepanciesO wZoned).map (fun d => d.cls) = ["effective-volumes-null", "effective-volumes-null", "transaction-timestamp"] := by
   decide
+
+set_option maxRecDepth 100000 in
+/-- the same transaction stored as a UTC text: filed under its instant, no clause differs -/
+theorem projection_timestamp_utc :
+    ((txRows (projectO (wZoned.map (fun x => (x.1, 0)))) "l").map (fun r => r.timestamp == Val.ts 1000)) = [true] ∧
+    discrepanciesO (wZoned.map (fun x => (x.1, 0))) = [] := by
+  decide
+
+/-- every timestamp the API accepts is handed on — and therefore marshalled into the stored payload — with offset 0
+(model D of `ParseTime`, tied to the real one by C13's differential; `LogM.formatTime` prints offset 0 as `Z`) -/
+theorem stored_timestamps_are_utc (s : String) (t : LogM.Time) (h : LogM.parseTime s = .ok t) :
+    t.off = 0 ∧ LogM.fmtZone t.off = ['Z'] := by
+  have := (LogM.parseTime_wf s t h).2.2.2.2.2.2.2.2.2.2.2
+  exact ⟨this, by rw [this]; rfl⟩
 
 /-- a bucket of two ledgers with back- and future-dated transactions, a self-posting on an existing account, a revert,
 account metadata written by a script, metadata set / delete on accounts and on a transaction -/
